@@ -90,18 +90,20 @@ pub struct Dim {
 pub fn addr_ref(d: Dim) -> BoxedStrategy<AddrRef> {
     let ne = d.n_eoa.max(1);
     let nc = d.n_con.max(1);
-    prop_oneof![
-        40 => (0..nc).prop_map(AddrRef::Con),
-        12 => (0..ne).prop_map(AddrRef::Eoa),
-        8 => (0u8..3).prop_map(AddrRef::Absent),
-        8 => ((0..nc), (1u8..3)).prop_map(|(creator, nonce)| AddrRef::Created { creator, nonce }),
-        8 => ((0..nc), (0u8..2), (0u8..INIT_KINDS)).prop_map(|(creator, salt, init)| AddrRef::Created2 { creator, salt, init }),
-        5 => ((0..ne), (0u8..2)).prop_map(|(sender, k)| AddrRef::TxCreated { sender, k }),
-        d.w_benef.max(1) => Just(AddrRef::Benef),
-        3 => (1u8..=9).prop_map(AddrRef::Precompile),
-        d.w_custom => Just(AddrRef::Custom(0)),
-    ]
-    .boxed()
+    let mut v: Vec<(u32, BoxedStrategy<AddrRef>)> = vec![
+        (40, (0..nc).prop_map(AddrRef::Con).boxed()),
+        (12, (0..ne).prop_map(AddrRef::Eoa).boxed()),
+        (8, (0u8..3).prop_map(AddrRef::Absent).boxed()),
+        (8, ((0..nc), (1u8..3)).prop_map(|(creator, nonce)| AddrRef::Created { creator, nonce }).boxed()),
+        (8, ((0..nc), (0u8..2), (0u8..INIT_KINDS)).prop_map(|(creator, salt, init)| AddrRef::Created2 { creator, salt, init }).boxed()),
+        (5, ((0..ne), (0u8..2)).prop_map(|(sender, k)| AddrRef::TxCreated { sender, k }).boxed()),
+        (d.w_benef.max(1), Just(AddrRef::Benef).boxed()),
+        (3, (1u8..=9).prop_map(AddrRef::Precompile).boxed()),
+    ];
+    if d.w_custom > 0 {
+        v.push((d.w_custom, Just(AddrRef::Custom(0)).boxed()));
+    }
+    proptest::strategy::Union::new_weighted(v).boxed()
 }
 
 pub fn expr(d: Dim, depth: u32) -> BoxedStrategy<Expr> {
@@ -223,7 +225,7 @@ pub fn tx(d: Dim, g: &GenCfg, spec: u8) -> BoxedStrategy<TxDef> {
         60 => (0..d.n_con.max(1)).prop_map(|i| TxTo::Call(AddrRef::Con(i))),
         15 => addr_ref(d).prop_map(TxTo::Call),
         (g.w_call_eoa / 10).max(1) => (0..d.n_eoa.max(1)).prop_map(|i| TxTo::Call(AddrRef::Eoa(i))),
-        g.w_custom => Just(TxTo::Call(AddrRef::Custom(0))),
+        g.w_custom.max(1) => if g.w_custom > 0 { Just(TxTo::Call(AddrRef::Custom(0))).boxed() } else { Just(TxTo::Call(AddrRef::Con(0))).boxed() },
         (g.w_create_tx / 10).max(1) => (0u8..INIT_KINDS).prop_map(TxTo::Create),
     ];
     let nonce = prop_oneof![
@@ -439,13 +441,18 @@ pub fn scenario(g: &GenCfg) -> BoxedStrategy<Scenario> {
                 proptest::bool::weighted(0.7),
                 proptest::bool::weighted(if g.allow_free_running { 0.15 } else { 0.0 }),
                 (proptest::bool::weighted(g.chain_pm as f64 / 1000.0), chain_contract(), proptest::collection::vec((0u8..5, 0u8..8), 12)),
-                proptest::option::weighted(
-                    g.facade_fault_pm as f64 / 1000.0,
-                    prop_oneof![
-                        prop_oneof![Just(AddrRef::Eoa(0)), Just(AddrRef::Con(0)), Just(AddrRef::Absent(1))].prop_map(DbKey::Basic),
-                        (0u8..3).prop_map(|s| DbKey::Storage(AddrRef::Con(0), s)),
-                    ],
-                ),
+                if g.facade_fault_pm == 0 {
+                    Just(None).boxed()
+                } else {
+                    proptest::option::weighted(
+                        g.facade_fault_pm as f64 / 1000.0,
+                        prop_oneof![
+                            prop_oneof![Just(AddrRef::Eoa(0)), Just(AddrRef::Con(0)), Just(AddrRef::Absent(1))].prop_map(DbKey::Basic),
+                            (0u8..3).prop_map(|s| DbKey::Storage(AddrRef::Con(0), s)),
+                        ],
+                    )
+                    .boxed()
+                },
             )
                 .prop_map(move |(mut eoas, mut contracts, beneficiary, mut txs, (concurrency, dnc, basefee), sched, db_yields, free, (chain, chain_con, chain_sel), facade_fault)| {
                     if chain {
@@ -491,6 +498,118 @@ pub fn scenario(g: &GenCfg) -> BoxedStrategy<Scenario> {
             let n = sc.world.eoas.len() as u8;
             for t in sc.txs.iter_mut() {
                 t.sender %= n.max(1);
+            }
+            sc
+        })
+        .boxed()
+}
+
+// ---------------------------------------------------------------------------------------------
+// T9: delegated-account policy template (C06/C12/C13)
+// ---------------------------------------------------------------------------------------------
+
+fn big_value() -> impl Strategy<Value = u64> {
+    prop_oneof![
+        2 => Just(0u64),
+        2 => 1u64..5,
+        2 => Just(1_000u64),
+        3 => Just(60_000u64),
+        3 => Just(120_000u64),
+        3 => Just(400_000u64),
+        2 => Just(1_000_000u64),
+        1 => Just(5_000_000_000u64),
+    ]
+}
+
+fn actor_stmt(d: Dim) -> BoxedStrategy<Stmt> {
+    let target = prop_oneof![
+        3 => (0u8..3).prop_map(AddrRef::Absent),
+        3 => (0..d.n_eoa.max(1)).prop_map(AddrRef::Eoa),
+        2 => (0..d.n_con.max(1)).prop_map(AddrRef::Con),
+        1 => Just(AddrRef::Benef),
+    ];
+    prop_oneof![
+        5 => (target.clone(), big_value(), 0u8..5, proptest::option::weighted(0.4, 0u8..6), prop_oneof![8 => Just(CallKind::Call), 1 => Just(CallKind::CallCode), 1 => Just(CallKind::DelegateCall), 1 => Just(CallKind::StaticCall)])
+            .prop_map(|(target, value, sel, store, kind)| Stmt::Call { kind, target, value, sel, arg: None, small_gas: false, store }),
+        3 => (any::<bool>(), 0u8..2, 0u8..INIT_KINDS, big_value(), proptest::option::weighted(0.5, 0u8..6))
+            .prop_map(|(create2, salt, init, value, store)| Stmt::Create { create2, salt, init, value, store }),
+        1 => target.clone().prop_map(Stmt::SelfDestruct),
+        2 => ((0u8..6), (0u64..4)).prop_map(|(s, v)| Stmt::SStore(s, Expr::Const(v))),
+        1 => Just(Stmt::Revert),
+        1 => (0u8..6).prop_map(|s| Stmt::Return(Expr::SLoad(s))),
+    ]
+    .boxed()
+}
+
+/// Scenario on Prague/Osaka with EOAs delegated to an "actor" contract that creates, sends value
+/// and self-destructs, transactions that run that code in the delegated context, and later own
+/// transactions of the delegated accounts with balances around the sum of their maximum costs.
+pub fn policy_scenario(g: &GenCfg) -> BoxedStrategy<Scenario> {
+    let mut g2 = g.clone();
+    g2.specs = vec![(3, 12), (2, 13)];
+    g2.basefees = vec![0];
+    g2.chain_pm = 0;
+    g2.w_7702 = 200;
+    let d = Dim { n_eoa: 4, n_con: 2, w_benef: 4, w_custom: 0 };
+    (
+        scenario(&g2),
+        proptest::collection::vec(proptest::collection::vec(actor_stmt(d), 1..4), 2..5),
+        // delegated accounts: index, balance in units of 20_000 wei
+        proptest::collection::vec((0u8..3, prop_oneof![Just(0u64), 1u64..80, Just(1_000_000u64)], 0u8..2), 1..3),
+        // transaction shaping: (kind, delegated idx, sel, value class, gas class)
+        proptest::collection::vec((0u8..10, 0u8..3, 0u8..5, big_value(), prop_oneof![Just(60_000u64), Just(120_000), Just(400_000)]), 12),
+    )
+        .prop_map(|(mut sc, routines, delegs, shape)| {
+            let n_eoa = sc.world.eoas.len() as u8;
+            let senders = n_eoa.min(4).max(1);
+            // actor contract
+            sc.world.contracts[0] = ContractDef { balance: Bal::Wei(50_000), storage: vec![], code: Code::Routines(routines) };
+            for (idx, units, which) in &delegs {
+                let i = (*idx % senders) as usize;
+                let target = if *which == 0 || sc.world.contracts.len() < 2 { AddrRef::Con(0) } else { AddrRef::Con(1) };
+                sc.world.eoas[i].delegate = Some(target);
+                sc.world.eoas[i].balance = Bal::Wei(units.saturating_mul(20_000));
+                sc.world.eoas[i].nonce = sc.world.eoas[i].nonce.min(50);
+            }
+            let deleg_ids: Vec<u8> = delegs.iter().map(|(i, _, _)| *i % senders).collect();
+            for (k, t) in sc.txs.iter_mut().enumerate() {
+                let (kind, di, sel, value, gas) = shape[k % shape.len()];
+                let dacc = deleg_ids[di as usize % deleg_ids.len()];
+                if t.tx_type == 4 || !matches!(t.nonce, NoncePolicy::Correct) {
+                    continue;
+                }
+                t.price_delta = 1;
+                t.prio = t.prio.map(|_| 1);
+                t.gas = GasDef::Limit(gas);
+                match kind {
+                    // someone else runs the delegated account's code
+                    0..=3 => {
+                        t.sender = (dacc + 1 + (k as u8 % (senders.max(2) - 1))) % senders;
+                        t.to = TxTo::Call(AddrRef::Eoa(dacc));
+                        t.sel = sel;
+                        t.value = if value % 3 == 0 { ValueDef::Wei(value) } else { ValueDef::Zero };
+                    }
+                    // the delegated account sends an ordinary transaction later
+                    4..=6 => {
+                        t.sender = dacc;
+                        t.to = TxTo::Call(AddrRef::Absent(1));
+                        t.value = if value % 2 == 0 { ValueDef::Wei(value.min(400_000)) } else { ValueDef::Zero };
+                    }
+                    // the delegated account calls itself (self-sponsored delegated execution)
+                    7 => {
+                        t.sender = dacc;
+                        t.to = TxTo::Call(AddrRef::Eoa(dacc));
+                        t.sel = sel;
+                        t.value = ValueDef::Zero;
+                    }
+                    // create transaction from the delegated account
+                    8 => {
+                        t.sender = dacc;
+                        t.to = TxTo::Create(sel % INIT_KINDS);
+                        t.value = ValueDef::Zero;
+                    }
+                    _ => {}
+                }
             }
             sc
         })
